@@ -1073,6 +1073,29 @@ class _FuncAnalysis:
             return (0, 1)
         if isinstance(e, ast.Call) and call_name(e) == "len" and len(e.args) == 1 and not e.keywords:
             return (0, 2 ** 63 - 1)
+        if isinstance(e, ast.Name) and e.id not in self.params:
+            # accumulator: every binding is `x = <ranged>` or `x |= <ranged>` / `x += <ranged>` outside loops, operands >= 0
+            binds = [n for n in walk_local(self.fi.node) if (isinstance(n, (ast.Assign, ast.AugAssign, ast.AnnAssign, ast.For, ast.NamedExpr, ast.With, ast.AsyncWith)) or isinstance(n, ast.comprehension)) and any(isinstance(x, ast.Name) and x.id == e.id and isinstance(x.ctx, ast.Store) for x in ast.walk(n.target if isinstance(n, (ast.AugAssign, ast.AnnAssign, ast.For, ast.NamedExpr, ast.comprehension)) else n) if not isinstance(n, (ast.With, ast.AsyncWith)) or True)]
+            in_loop = any(isinstance(l, (ast.For, ast.AsyncFor, ast.While)) and any(b is x for b in binds for x in ast.walk(l)) for l in walk_local(self.fi.node))
+            if binds and not in_loop and all((isinstance(b, ast.Assign) and len(b.targets) == 1 and isinstance(b.targets[0], ast.Name)) or (isinstance(b, ast.AugAssign) and isinstance(b.target, ast.Name) and isinstance(b.op, (ast.BitOr, ast.Add))) for b in binds) and not getattr(self, "_acc_guard", False):
+                self._acc_guard = True
+                try:
+                    rs = [self.int_range(b.value, ()) for b in binds]
+                finally:
+                    self._acc_guard = False
+                if all(r is not None and r[0] >= 0 for r in rs):
+                    if all(isinstance(b, ast.Assign) or isinstance(b.op, ast.BitOr) for b in binds):
+                        return (0, (1 << max(r[1].bit_length() for r in rs)) - 1)
+                    return (0, sum(r[1] for r in rs))
+        t = self.typ(e) if isinstance(e, (ast.Attribute, ast.Name, ast.Call, ast.Subscript)) else None
+        if t is not None:
+            if kinds(t) == {"bool"}:
+                return (0, 1)
+            cis = self.classes_of_type(t)
+            if cis and all(self.repo.is_enum(ci) and any(b.split(".")[-1] in ("IntEnum", "IntFlag") for c2 in self.repo.mro(ci) for b in [ast.unparse(x) for x in c2.node.bases]) for ci in cis):
+                vals = [v for ci in cis for v in self.repo.enum_members(ci).values()]
+                if vals and all(isinstance(v, int) and not isinstance(v, bool) for v in vals):
+                    return (min(vals), max(vals))
         return None
 
     def builtin_call(self, name: str, c: ast.Call, local: tuple) -> set[Esc]:
